@@ -16,6 +16,7 @@ CONSTANTS
   FixDeriveGuards = FALSE
   FixLateTrack = FALSE
   FixDeleteOnAccept = FALSE
+  FixStoreOnAccept = FALSE
 INVARIANTS SyncNoPanic Listed SyncBounded TypeOK
 PROPERTIES NewestMono
 CONSTRAINT FirstBeforeSecond
